@@ -178,6 +178,15 @@ func (fx *FuncExec) run() {
 				fx.modSet[si.Sort] = append(fx.modSet[si.Sort], fx.entry.vars[varKey(pv)])
 			}
 		}
+		// named struct results are objects of this call
+		for i := 0; i < sig.Results().Len(); i++ {
+			rv := sig.Results().At(i)
+			if si := fx.structValInfo(rv.Type()); si != nil && rv.Name() != "" && rv.Name() != "_" {
+				if v, ok := fx.entry.vars[varKey(rv)]; ok {
+					fx.modSet[si.Sort] = append(fx.modSet[si.Sort], v)
+				}
+			}
+		}
 	}
 	// vacuity check: the entry assumptions must be satisfiable
 	vo := fx.oblige(st, "vacuity", "entry-satisfiable", "true", "requires are satisfiable", fi.Body.Pos())
